@@ -51,7 +51,7 @@ BOUNDS_E = ["U", "I0", "I2", "I3", "E0", "E1", "E3", "E4", "E8", "I%d" % MAXU, "
 def mutating_ops(r="v0", args=SMALL):
     """single operations on register r that need no second register"""
     ops = ["push %s 50" % r, "pop %s" % r, "clear %s" % r, "dedup %s" % r, "shrink_to_fit %s" % r,
-           "spare %s" % r, "split_spare %s" % r, "raw_parts %s" % r, "raw_part %s" % r,
+           "spare %s" % r, "split_spare %s" % r,
            "retain %s mod2=0" % r, "retain %s seqTFTFT" % r, "dedup_by %s mod2=0" % r, "dedup_by_key %s kmod2" % r,
            "remove_item %s 2" % r, "remove_item %s 99" % r,
            "extend %s it[60,61]" % r, "extend %s it[]" % r, "extend_from_slice %s 70 71 72" % r, "extend_from_slice %s" % r,
@@ -219,7 +219,7 @@ def random_case(rng, name, cls, mode, nops, directives=(), hostile=False):
         elif k < 34: ops.append("shrink_to_fit " + r)
         elif k < 35:
             rn = fresh("v"); ops.append("clone %s %s" % (r, rn)); regs.append(rn)
-        elif k < 36: ops.append(rng.pick(["spare ", "split_spare ", "raw_parts ", "raw_part "]) + r)
+        elif k < 36: ops.append(rng.pick(["spare ", "split_spare "]) + r)
         elif k < 37:
             it = fresh("i"); ops.append("drain %s %s %s %s" % (r, bound(True), bound(False), it)); its.append((it, "dr", r)); lent.add(r)
         elif k < 38:
